@@ -7,6 +7,7 @@ import (
 	"os"
 	"path/filepath"
 	"regexp"
+	"strconv"
 	"strings"
 )
 
@@ -582,13 +583,24 @@ structure Plan where
 		c.c12SigRule("x/crosschain/types", "EthAddressFromSignature", "ValidateEthereumSignature"),
 		c.c12SigRule("x/tron/types", "TronAddressFromSignature", "ValidateTronSignature"),
 	}
-	sb.WriteString("/-- the two signature decoders: minimum length guard, the values of the recovery byte that are normalised, the\nsubtrahend, the prefix constant hashed before the digest, the final comparison -/\nstructure SigRule where\n  func : String\n  minLen : String\n  vNorm : List String\n  vSub : String\n  pfx : String\n  cmp : String\n  deriving DecidableEq, Repr\n\ndef sigRules : List SigRule := [\n")
+	sb.WriteString("/-- the two signature decoders: minimum length guard, the values of the recovery byte that are normalised, the\nsubtrahend, the prefix constant hashed before the digest, the final comparison -/\nstructure SigRule where\n  func : String\n  minLen : String\n  vNorm : List String\n  vSub : String\n  pfx : String\n  cmp : String\n  minLenN : Nat        -- the same constants as numbers (0 when the text is not a decimal literal)\n  vNormN : List Nat\n  vSubN : Nat\n  deriving DecidableEq, Repr\n\ndef sigRules : List SigRule := [\n")
 	for i, r := range rules {
 		sep := ","
 		if i == len(rules)-1 {
 			sep = ""
 		}
-		fmt.Fprintf(&sb, "  ⟨%s, %s, %s, %s, %s, %s⟩%s\n", leanStr(r.Func), leanStr(r.MinLen), c12LeanStrs(r.VNorm), leanStr(r.VSub), leanStr(r.Prefix), leanStr(r.Cmp), sep)
+		num := func(t string) string {
+			if n, err := strconv.ParseUint(t, 10, 32); err == nil {
+				return strconv.FormatUint(n, 10)
+			}
+			return "0"
+		}
+		var vn []string
+		for _, v := range r.VNorm {
+			vn = append(vn, num(v))
+		}
+		fmt.Fprintf(&sb, "  ⟨%s, %s, %s, %s, %s, %s, %s, %s, %s⟩%s\n", leanStr(r.Func), leanStr(r.MinLen), c12LeanStrs(r.VNorm), leanStr(r.VSub), leanStr(r.Prefix), leanStr(r.Cmp),
+			num(r.MinLen), leanList(vn), num(r.VSub), sep)
 	}
 	sb.WriteString("]\n\n")
 	c.facts["C12.sigRules"] = rules
